@@ -43,7 +43,7 @@ type ConnSpec struct {
 	// ClearBehind: a request sent in the clear in the same write as the StartTLS request, directly behind it
 	// (request index 90); RFC 4511 4.14.1 forbids it, an attacker on the path can do it
 	ClearBehind string
-	Name     string
+	Name        string
 }
 
 func msgID(ci, k int) int64 { return int64((ci+1)*1000 + k) }
@@ -79,6 +79,13 @@ func (sp *Spec) body() {
 	}
 	if sp.Srv.TLS != nil {
 		w.TLSCfg = sp.Srv.TLS
+	}
+	for ci := range sp.Conns {
+		for _, h := range sp.Conns[ci].H {
+			if h.Ctl != "" && w.SharedCtl[h.Ctl] == nil {
+				w.SharedCtl[h.Ctl] = newCtl(h.Ctl)
+			}
+		}
 	}
 	o := sp.Srv
 	if sp.StopBeforeRun {
